@@ -45,28 +45,16 @@ impl<'a, F: PrimeCharacteristicRing + Eq> ExecutionContext<'a, F> {
     }
 
     /// Get witness value at the given index
+    ///
+    /// The read is checked in every build profile: an unset (or out-of-range) slot is a
+    /// caller error (`WitnessNotSet`), never undefined behaviour.
     #[inline]
     pub fn get_witness(&self, widx: WitnessId) -> Result<F, CircuitError> {
-        let idx = widx.0 as usize;
-
-        #[cfg(debug_assertions)]
-        {
-            self.witness
-                .get(idx)
-                .and_then(Option::as_ref)
-                .map(p3_field::Dup::dup)
-                .ok_or(CircuitError::WitnessNotSet { witness_id: widx })
-        }
-
-        #[cfg(not(debug_assertions))]
-        unsafe {
-            Ok(self
-                .witness
-                .get_unchecked(idx)
-                .as_ref()
-                .unwrap_unchecked()
-                .dup())
-        }
+        self.witness
+            .get(widx.0 as usize)
+            .and_then(Option::as_ref)
+            .map(p3_field::Dup::dup)
+            .ok_or(CircuitError::WitnessNotSet { witness_id: widx })
     }
 
     /// Set witness value at the given index.
@@ -184,7 +172,6 @@ mod tests {
         assert_eq!(result.unwrap(), val);
     }
 
-    #[cfg(debug_assertions)]
     #[test]
     fn test_execution_context_get_witness_unset() {
         let mut witness = vec![None, Some(F::from_u64(100))];
